@@ -3,6 +3,7 @@ package ls
 import (
 	"context"
 	"fmt"
+	"net/url"
 	"strings"
 	"unicode/utf8"
 
@@ -67,11 +68,11 @@ func (s *Server) Initialize(ctx context.Context, params *lsp.InitializeParams) (
 
 func (s *Server) DidOpen(ctx context.Context, params *lsp.DidOpenTextDocumentParams) error {
 	s.logger.Info("opened",
-		zap.String("filename", params.TextDocument.URI.Filename()),
+		zap.String("filename", docName(params.TextDocument.URI)),
 		zap.Uint32("version", uint32(params.TextDocument.Version)),
 		zap.String("lang", string(params.TextDocument.LanguageID)))
 
-	filename := params.TextDocument.URI.Filename()
+	filename := docName(params.TextDocument.URI)
 	content := params.TextDocument.Text
 	s.docs[filename] = &document{
 		version: uint32(params.TextDocument.Version),
@@ -81,7 +82,7 @@ func (s *Server) DidOpen(ctx context.Context, params *lsp.DidOpenTextDocumentPar
 }
 
 func (s *Server) DidSave(ctx context.Context, params *lsp.DidSaveTextDocumentParams) error {
-	s.logger.Info("saved", zap.String("filename", params.TextDocument.URI.Filename()))
+	s.logger.Info("saved", zap.String("filename", docName(params.TextDocument.URI)))
 	return nil
 }
 
@@ -90,7 +91,7 @@ func (s *Server) DidChange(ctx context.Context, params *lsp.DidChangeTextDocumen
 		// Nothing has changed (we ask for full document syncs).
 		return nil
 	}
-	filename := params.TextDocument.URI.Filename()
+	filename := docName(params.TextDocument.URI)
 	content := params.ContentChanges[0].Text
 	s.docs[filename] = &document{
 		version: uint32(params.TextDocument.Version),
@@ -100,16 +101,16 @@ func (s *Server) DidChange(ctx context.Context, params *lsp.DidChangeTextDocumen
 }
 
 func (s *Server) DidClose(ctx context.Context, params *lsp.DidCloseTextDocumentParams) error {
-	filename := params.TextDocument.URI.Filename()
+	filename := docName(params.TextDocument.URI)
 	delete(s.docs, filename)
-	s.logger.Info("closed", zap.String("filename", params.TextDocument.URI.Filename()))
+	s.logger.Info("closed", zap.String("filename", docName(params.TextDocument.URI)))
 	return nil
 }
 
 func (s *Server) typecheck(ctx context.Context, uri lsp.DocumentURI, version uint32, content string) error {
 	var res []lsp.Diagnostic
 
-	_, err := compiler.Compile(ctx, uri.Filename(), content, compiler.Params{CheckOnly: true, Verbose: true})
+	_, err := compiler.Compile(ctx, docName(uri), content, compiler.Params{CheckOnly: true, Verbose: true})
 	for _, p := range status.FromError(err) {
 		rng, _, _ := strings.Cut(content[p.Origin.Offset:p.Origin.EndOffset], "\n")
 		res = append(res, lsp.Diagnostic{
@@ -138,8 +139,18 @@ func (s *Server) typecheck(ctx context.Context, uri lsp.DocumentURI, version uin
 
 func keepGoing(err tm.SyntaxError) bool { return true }
 
+// docName returns the name under which a document is tracked: its file path or, for
+// documents that are not backed by a file (e.g. "untitled:Untitled-1", for which
+// URI.Filename panics), the URI itself.
+func docName(u lsp.DocumentURI) string {
+	if parsed, err := url.ParseRequestURI(string(u)); err != nil || parsed.Scheme != uri.FileScheme {
+		return string(u)
+	}
+	return u.Filename()
+}
+
 func (s *Server) Definition(ctx context.Context, params *lsp.DefinitionParams) (result []lsp.Location, err error) {
-	filename := params.TextDocument.URI.Filename()
+	filename := docName(params.TextDocument.URI)
 	doc := s.docs[filename]
 	if doc == nil {
 		return nil, fmt.Errorf("%s is not opened", filename)
